@@ -8,6 +8,7 @@ import (
 	"io"
 	"net"
 	"os"
+	"strings"
 	"sync"
 	"testing"
 	"testing/synctest"
@@ -376,7 +377,13 @@ func (r *muxRun) step(a muxAct) {
 		close(cl.sendq)
 		_ = cl.conn.Close()
 	case "Get":
-		pc, err := r.mux.GetConnByUfrag(a.U, false, ipForm(r.ln.addr.IP, r.sc.ID))
+		// "u1/6": the packet conn of ufrag u1 in the mux's IPv6 table (the family is a parameter of the call)
+		uf, v6 := strings.CutSuffix(a.U, "/6")
+		lip := ipForm(r.ln.addr.IP, r.sc.ID)
+		if v6 {
+			lip = net.ParseIP("fd00::1")
+		}
+		pc, err := r.mux.GetConnByUfrag(uf, v6, lip)
 		line.OK = err == nil
 		if err == nil {
 			h := &muxHandle{u: a.U, pc: pc, id: ice.VerifTCPPacketConnID(pc)}
